@@ -86,6 +86,7 @@ PROPS = {
         level="proof",
         min_obligations=150,
         replay_family="c20",
+        bounded=[dict(family="c20", what="the ASSUMED part only: int->float `as` casts and f32 widening round to nearest (accessor results compared with Rust's own casts); plus a sample of every proved clause", bound="99 cases: boundary integers (0, +-1, 2^53+-1, i64/u64 extremes), floats (+-0, NaN, inf, fractional), all kinds of Value")],
         explanation="Every accessor, predicate, From conversion and comparison helper of number.rs, value/mod.rs, value/from.rs and "
                     "value/partial_eq.rs is extracted from /repo and verified by Verus against postconditions transcribed from the property "
                     "(truth tables over the kind, payload preservation, comparison == accessor comparison). Unbounded over all payloads.",
@@ -101,6 +102,7 @@ PROPS = {
         level="proof",
         min_obligations=100,
         replay_family="c15",
+        bounded=[dict(family="c15", what="sample of the proved clauses on the real crate (construction/traversal/indexing agree)", bound="74 cases: lists of length 0-4, dotted tails of every kind, nested lists, all index types")],
         explanation="cons.rs, the list constructors/traversals of value/mod.rs and value/index.rs are extracted from /repo and verified against the "
                     "abstract view (elems, tail) of a cons chain: append/list == mk_list (functional proof through the &mut cursor with a prophecy "
                     "invariant), to_vec/to_ref_vec/into_vec return (elems, tail) and their unreachable!() is dead, Iter/IntoIter/ListIter follow the "
@@ -119,6 +121,7 @@ PROPS = {
         level="proof",
         min_obligations=60,
         replay_family="c07",
+        bounded=[dict(family="c07", what="the ASSUMED parts: itoa/ryu texts and write!(..{:x}) emitters deliver through short-writing sinks; entry points to_writer/to_vec/to_string/Display agree", bound="980 cases: (value, option set) pairs x sinks accepting 0/1/2/3 bytes per write, failing after k bytes, failing once; entry-point agreement")],
         explanation="print.rs is extracted from /repo and verified against a sink model of std::io::Write in which every `write` call may accept "
                     "ANY number n <= len of bytes (all short-write schedules at once) and `write_all` delivers everything or fails having delivered a prefix. "
                     "Every Formatter method (default bodies verified once per implementor, DefaultFormatter at the default option set, CustomizedFormatter for "
@@ -139,6 +142,7 @@ PROPS = {
         level="proof",
         min_obligations=15,
         replay_family="c05",
+        bounded=[dict(family="c05", what="the ASSUMED part: f64_from_parts (floating-point scaling) gives the nearest double on the exact path and the documented accuracy elsewhere; integer boundaries in every radix", bound="165 cases: 24 decimal literals incl. subnormal/extreme/over-long, 9 boundary integers x 5 radix prefixes x 3 signs, 5 over-long integers")],
         explanation="The number scanner of parse/mod.rs (parse_num_literal, parse_long_integer, parse_num_tail, parse_decimal, parse_exponent, "
                     "parse_radix_literal) is extracted from /repo and verified against a declarative grammar (sp_num_literal / sp_num_tail / sp_decimal / "
                     "sp_exponent written from the C05 statement): digit runs of any length in radix 2/8/10/16, exact u64 value by induction over the digit "
@@ -185,6 +189,7 @@ PROPS = {
         level="proof",
         min_obligations=25,
         replay_family="c08",
+        bounded=[dict(family="c08", what="documented reading of each option-governed token in 4 syntactic positions, compared with a table written from the documentation", bound="33 (token, option set) pairs x 4 positions")],
         explanation="parse_token - the only place parser options are consulted - is extracted from /repo and verified against a declarative classifier written from "
                     "the property statement, one clause per option: letter-initial words (postfix keywords, nil under NilSymbol, t under TSymbol, else symbol, with the "
                     "token text = the bytes up to the first symbol terminator, decoded as UTF-8), `:name` under ColonPrefix, `#:name` under Octothorpe (error when off), "
@@ -266,6 +271,7 @@ PROPS = {
         level="proof",
         min_obligations=60,
         replay_family="c03",
+        bounded=[dict(family="c03", what="no panic / no stack overflow / terminates on pathological inputs for the parts not modelled (stack size, f64_from_parts body): every byte string up to 2 bytes, token-alphabet strings, 10^5 nested openers of each kind", bound="21962 inputs x 2 option sets x value and datum API")],
         explanation="Every function of parse/read.rs (decoders, slice/str scanners) and parse/mod.rs (lexer, number scanner, next_value/expect_value/"
                     "parse_list/parse_vector/parse_byte_list/end_seq) is extracted from /repo and verified for: no arithmetic overflow, no out-of-bounds index or "
                     "slice, every unwrap/expect on Some/Ok, every unreachable!() dead, callee preconditions, termination of every loop (decreases on the "
